@@ -111,6 +111,17 @@ func r2BothDirs(c *core.Ctx, r *core.Reporter) {
 			"where both @skip and @include are evaluated for a selection, neither evaluation can be followed by the other (they are alternatives of one switch): a selection that carries both is decided by one of them alone, so `@skip(if:$s) @include(if:$i)` with s=false, i=false is included")
 	}
 	if n == 0 {
+		// the table-driven spelling: one evaluation inside a loop over the directives found on the selection
+		for _, g := range c.Region(pd) {
+			for _, site := range core.CallsTo(g, gav, false) {
+				if directiveOfArgs(site.Common().Args[0]) == "" && core.InAnyLoop(site.Block()) {
+					n++
+					r.OK("planDirectives/both-evaluated", site.Pos(), "the directives of a selection are evaluated in a loop, one after the other")
+				}
+			}
+		}
+	}
+	if n == 0 {
 		r.Unknown("planDirectives/both-evaluated", pd.Pos(), "no function evaluates both directives (anchor moved)")
 	}
 }
@@ -683,14 +694,13 @@ func r2Live(c *core.Ctx, r *core.Reporter) {
 // r2ErrPath: newLocatedError gives the error the path of the frame that caught it. A path taken from the error value
 // itself (an already formatted error relayed from another execution) points into a different response.
 func r2ErrPath(c *core.Ctx, r *core.Reporter) {
-	fn := c.Func("", "newLocatedError")
-	if fn == nil {
-		r.Unknown("newLocatedError/path", token.NoPos, "not found")
-		return
-	}
+	// the functions that locate an error: those of the root package that build a gqlerrors error with a path
 	n, okAll := 0, true
 	var pos token.Pos
-	for _, g := range c.Region(fn) {
+	for _, g := range c.LibFuncs() {
+		if !c.IsLibPkgFn(g, "") || !strings.Contains(fnKey(g), "ocatedError") {
+			continue
+		}
 		for _, ci := range core.CallSites(g) {
 			cal := ci.Common().StaticCallee()
 			if cal == nil || cal.Pkg == nil || cal.Pkg.Pkg.Name() != "gqlerrors" || !strings.Contains(cal.Name(), "WithPath") {
@@ -706,14 +716,14 @@ func r2ErrPath(c *core.Ctx, r *core.Reporter) {
 				}
 				n++
 				pos = ci.Pos()
-				if ok, _ := core.OnlyClasses(a, "param:[]interface{}", "param:[]any"); !ok {
+				if ok, _ := core.OnlyClasses(a, "param:[]interface{}", "param:[]any", "nil"); !ok {
 					okAll = false
 				}
 			}
 		}
 	}
 	if n == 0 {
-		r.Unknown("newLocatedError/path", fn.Pos(), "no error construction with a path found")
+		r.Unknown("newLocatedError/path", token.NoPos, "no located-error construction with a path found")
 		return
 	}
 	r.Check(okAll, "newLocatedError/path", pos, "the located error's path is the path parameter and nothing else",
@@ -794,7 +804,7 @@ func init() {
 		Doc: "the plan's field slices are never handed to a sorting or reordering routine", Run: r2NoSort})
 	register(&core.Rule{Name: "C19/REC-loopset", Props: []string{"C19", "C09"}, Min: 1,
 		Doc: "a visited set handed to the fragment collector is not created inside a loop over occurrences", Run: r2LoopSet})
-	register(&core.Rule{Name: "C04/FLOW-walked", Props: []string{"C04", "C13"}, Min: 5,
+	register(&core.Rule{Name: "C04/FLOW-walked", Props: []string{"C04", "C13"}, Min: 4,
 		Doc: "what a forced thunk yields is itself walked for nested maps, lists and thunks", Run: r2Walked})
 }
 
@@ -1176,6 +1186,21 @@ func r2Walked(c *core.Ctx, r *core.Reporter) {
 					case *ssa.Call:
 						if cal := x.Call.StaticCallee(); cal != nil && strings.HasPrefix(core.N(cal), "dethunk") {
 							walked = true
+						} else if cal != nil && c.IsFresh(cal) {
+							// the descent extracted into a helper: does the helper test for map / list or call a walker?
+							c.RegionInstrs(cal, func(y ssa.Instruction) {
+								switch z := y.(type) {
+								case *ssa.TypeAssert:
+									switch z.AssertedType.Underlying().(type) {
+									case *types.Map, *types.Slice:
+										walked = true
+									}
+								case *ssa.Call:
+									if c2 := z.Call.StaticCallee(); c2 != nil && strings.HasPrefix(core.N(c2), "dethunk") {
+										walked = true
+									}
+								}
+							})
 						}
 					}
 				}
